@@ -488,6 +488,138 @@ fn main() {
             writeln!(out, "stress rounds={rounds} ops={total_ops} bad={bad} first={first}").unwrap();
             out.flush().unwrap();
         }
+        "ustress-check" => {
+            // the unmanaged pool under real threads (no scheduler, pool never closed): try_get /
+            // return, try_add, try_remove, Object::take, status. At rest C05 leaves one outcome:
+            // every tagged object is in the pool or was handed to a caller exactly once, status()
+            // is exact, and exactly `max_size - size` further objects can be added.
+            use std::sync::{atomic::{AtomicUsize, Ordering}, Arc};
+            let rounds: u64 = arg(&args, "--rounds").and_then(|s| s.parse().ok()).unwrap_or(30);
+            std::panic::set_hook(Box::new(|_| {}));
+            let mut bad = 0usize;
+            let mut first = String::new();
+            let mut total_ops = 0u64;
+            for r in 0..rounds {
+                let max = 1 + (r % 4) as usize;
+                let pool: deadpool::unmanaged::Pool<usize> = deadpool::unmanaged::Pool::new(max);
+                let next = Arc::new(AtomicUsize::new(0));
+                let removed = Arc::new(AtomicUsize::new(0));
+                let added = Arc::new(AtomicUsize::new(0));
+                let over = Arc::new(AtomicUsize::new(0));
+                let hs: Vec<_> = (0..4u64)
+                    .map(|t| {
+                        let (pool, next, removed, added, over) = (pool.clone(), next.clone(), removed.clone(), added.clone(), over.clone());
+                        std::thread::spawn(move || {
+                            let mut x = 0xD1B54A32D192ED03u64.wrapping_mul(r * 4 + t + 1);
+                            let mut held: Vec<deadpool::unmanaged::Object<usize>> = Vec::new();
+                            let mut ops = 0u64;
+                            for _ in 0..1500 {
+                                x ^= x << 13;
+                                x ^= x >> 7;
+                                x ^= x << 17;
+                                ops += 1;
+                                match x % 16 {
+                                    0..=4 => {
+                                        if let Ok(o) = pool.try_get() {
+                                            held.push(o);
+                                        }
+                                    }
+                                    5..=8 => {
+                                        if !held.is_empty() {
+                                            drop(held.swap_remove((x >> 8) as usize % held.len()));
+                                        }
+                                    }
+                                    9..=11 => {
+                                        let id = next.fetch_add(1, Ordering::SeqCst);
+                                        if pool.try_add(id).is_ok() {
+                                            let _ = added.fetch_add(1, Ordering::SeqCst);
+                                        }
+                                    }
+                                    12 => {
+                                        if pool.try_remove().is_ok() {
+                                            let _ = removed.fetch_add(1, Ordering::SeqCst);
+                                        }
+                                    }
+                                    13 => {
+                                        if !held.is_empty() {
+                                            let o = held.swap_remove((x >> 8) as usize % held.len());
+                                            let _ = deadpool::unmanaged::Object::take(o);
+                                            let _ = removed.fetch_add(1, Ordering::SeqCst);
+                                        }
+                                    }
+                                    _ => {
+                                        let st = pool.status();
+                                        if st.size > st.max_size {
+                                            let _ = over.fetch_add(1, Ordering::SeqCst);
+                                        }
+                                    }
+                                }
+                            }
+                            drop(held);
+                            ops
+                        })
+                    })
+                    .collect();
+                let mut panicked = 0usize;
+                for h in hs {
+                    match h.join() {
+                        Ok(n) => total_ops += n,
+                        Err(_) => panicked += 1,
+                    }
+                }
+                let at_rest = std::panic::catch_unwind(std::panic::AssertUnwindSafe(|| {
+                    let mut problems: Vec<String> = Vec::new();
+                    let inside = added.load(Ordering::SeqCst) - removed.load(Ordering::SeqCst).min(added.load(Ordering::SeqCst));
+                    let st = pool.status();
+                    if st.max_size != max || st.size != inside || st.available as i64 != inside as i64 || st.size > max {
+                        problems.push(format!("at rest status() = {:?} but {} object(s) were added and not removed, max_size {}", st, inside, max));
+                    }
+                    if over.load(Ordering::SeqCst) > 0 {
+                        problems.push(format!("status() reported size > max_size {} time(s) while running", over.load(Ordering::SeqCst)));
+                    }
+                    // exactly max - inside more fit
+                    let mut fitted = 0usize;
+                    for k in 0..max + 1 {
+                        if pool.try_add(1_000_000 + k).is_ok() {
+                            fitted += 1;
+                        }
+                    }
+                    if fitted != max - inside.min(max) {
+                        problems.push(format!("at rest {} more object(s) could be added, expected max_size {} - size {} = {}", fitted, max, inside, max - inside.min(max)));
+                    }
+                    // and every object can be taken out again, each once
+                    let mut got = Vec::new();
+                    while let Ok(v) = pool.try_remove() {
+                        got.push(v);
+                        if got.len() > max + 2 {
+                            break;
+                        }
+                    }
+                    let n = got.len();
+                    got.sort();
+                    got.dedup();
+                    if got.len() != n || n != inside + fitted {
+                        problems.push(format!("the pool gave back {} object(s) ({} distinct), expected {}", n, got.len(), inside + fitted));
+                    }
+                    problems
+                }));
+                let mut problems = match at_rest {
+                    Ok(p) => p,
+                    Err(_) => vec!["a pool call panicked while the pool was inspected at rest".to_string()],
+                };
+                if panicked > 0 {
+                    problems.insert(0, format!("{panicked} of 4 threads ended in a panic raised inside a pool operation"));
+                }
+                if !problems.is_empty() {
+                    bad += 1;
+                    if first.is_empty() {
+                        first = format!("round {r} (max_size {max}, 4 threads x 1500 operations): {}", problems.join(" | "));
+                    }
+                }
+            }
+            writeln!(out, "ustress rounds={rounds} ops={total_ops} bad={bad} first={first}").unwrap();
+            out.flush().unwrap();
+        }
         "close-race-check" => {
             // C06 on real threads: `close()` racing `resize()` and the return of an object, with
             // no scheduler in between. The windows exercised here lie *inside* what the model
